@@ -890,3 +890,110 @@ def gen_band_select():
 
 
 GENERATORS.append(gen_band_select)
+
+
+# --------------------------------------------------------------------------------------------------------------------------
+# round 5: process-wide state of the analyzer modules (a memo shared by all objects), and how `concatenate_time_series` builds its block
+CACHE_DECOS = ('lru_cache', 'cache', 'cached_property', 'memoize', 'memoized', 'memo')
+MODSTATE_FILES = STATE_FILES + ['nitime/analysis/__init__.py']
+
+
+def _module_writes(relpath):
+    """module-level names of one file that a function / method rebinds (`global`) or changes in place — directly, through a local
+    alias, by item / attribute store, `del`, augmented assignment or a mutating method — and caching decorators"""
+    written, decos = [], []
+    tree = tr.parse(relpath)
+    modnames = set()
+    for node in tree.body:
+        if isinstance(node, (ast.Assign, ast.AnnAssign, ast.AugAssign)):
+            tgts = node.targets if isinstance(node, ast.Assign) else [node.target]
+            for t in tgts:
+                for n in ast.walk(t):
+                    if isinstance(n, ast.Name):
+                        modnames.add(n.id)
+    short = os.path.basename(relpath)
+    for fn in [n for n in ast.walk(tree) if isinstance(n, (ast.FunctionDef, ast.AsyncFunctionDef))]:
+        for d in fn.decorator_list:
+            txt = src_text(d)
+            if any(c in txt for c in CACHE_DECOS):
+                decos.append('%s %s: @%s' % (short, fn.name, txt[:40]))
+        params = {a.arg for a in fn.args.args + fn.args.kwonlyargs + fn.args.posonlyargs}
+        local_stores = {n.id for n in ast.walk(fn) if isinstance(n, ast.Name) and isinstance(n.ctx, ast.Store)}
+        globl = {x for n in ast.walk(fn) if isinstance(n, (ast.Global, ast.Nonlocal)) for x in n.names}
+        alias = {}
+        for n in ast.walk(fn):
+            if isinstance(n, ast.Assign) and isinstance(n.value, ast.Name) and n.value.id in modnames and n.value.id not in params:
+                for t in n.targets:
+                    if isinstance(t, ast.Name):
+                        alias[t.id] = n.value.id
+
+        def module_obj(e):
+            if isinstance(e, ast.Name):
+                if e.id in alias:
+                    return alias[e.id]
+                if e.id in modnames and e.id not in params and (e.id not in local_stores or e.id in globl):
+                    return e.id
+            return None
+        for g in sorted(globl):
+            written.append('%s %s: global %s' % (short, fn.name, g))
+        for n in ast.walk(fn):
+            if isinstance(n, ast.Call) and isinstance(n.func, ast.Attribute):
+                m = module_obj(n.func.value)
+                if m is not None and n.func.attr in MUTATORS:
+                    written.append('%s %s: %s.%s(...)' % (short, fn.name, m, n.func.attr))
+            tg = []
+            if isinstance(n, ast.Assign):
+                tg = n.targets
+            elif isinstance(n, (ast.AugAssign, ast.AnnAssign)):
+                tg = [n.target]
+            elif isinstance(n, ast.Delete):
+                tg = n.targets
+            for t in tg:
+                for s in ast.walk(t):
+                    if isinstance(s, (ast.Subscript, ast.Attribute)) and isinstance(s.ctx, (ast.Store, ast.Del)):
+                        m = module_obj(s.value)
+                        if m is not None:
+                            written.append('%s %s: %s written (%s)' % (short, fn.name, m, src_text(s)[:40]))
+    return written, decos
+
+
+def gen_module_state():
+    """`moduleWrites` / `cacheDecorators` over nitime/analysis/*.py; `concatBuilder`: the statements of `concatenate_time_series`
+    that produce the data block handed to the constructor (callee of every call whose result reaches `TimeSeries(<first arg>)`,
+    with keywords), and every explicit dtype / casting mention in that function"""
+    written, decos, echo = [], [], {}
+    for rel in MODSTATE_FILES:
+        if os.path.exists(os.path.join(tr.REPO, rel)):
+            w, d = _module_writes(rel)
+            written += w
+            decos += d
+    builder, dtype_mentions = [], []
+    if os.path.exists(os.path.join(tr.REPO, 'nitime/timeseries.py')):
+        tree = tr.parse('nitime/timeseries.py')
+        for fn in tree.body:
+            if isinstance(fn, ast.FunctionDef) and fn.name == 'concatenate_time_series':
+                for n in ast.walk(fn):
+                    if isinstance(n, ast.Call) and src_text(n.func).split('.')[-1] == 'TimeSeries' and n.args:
+                        builder.append(src_text(n.args[0]).replace(' ', ''))
+                    if isinstance(n, ast.keyword) and n.arg in ('dtype', 'casting', 'out'):
+                        dtype_mentions.append('%s=%s' % (n.arg, src_text(n.value)[:40]))
+                    if isinstance(n, ast.Attribute) and n.attr in ('astype', 'dtype', 'empty', 'zeros', 'empty_like', 'zeros_like', 'view'):
+                        dtype_mentions.append(src_text(n)[:40])
+    esc = lambda s: s.replace('\\', '/').replace('"', "'").replace('\n', ' ')      # noqa
+    lst = lambda xs: '[%s]' % ', '.join('"%s"' % esc(s) for s in xs)      # noqa
+    lines = ['-- GENERATED by harness/translate_c15.py (gen_module_state) from nitime/analysis/*.py and nitime/timeseries.py. DO NOT EDIT.',
+             'namespace Nitime.Generated.ModuleState', '',
+             '/-- module-level names of the analyzer modules rebound or changed in place inside a function / method (process-wide state) -/',
+             'def moduleWrites : List String :=\n  %s' % lst(sorted(set(written))), '',
+             '/-- caching decorators on functions / methods of the analyzer modules -/',
+             'def cacheDecorators : List String :=\n  %s' % lst(sorted(set(decos))), '',
+             '/-- first argument of the `TimeSeries(...)` call(s) in `concatenate_time_series` (blanks removed) -/',
+             'def concatBuilder : List String :=\n  %s' % lst(builder), '',
+             '/-- explicit dtype / casting / allocation mentions inside `concatenate_time_series` -/',
+             'def concatDtypeMentions : List String :=\n  %s' % lst(sorted(set(dtype_mentions))), '',
+             'end Nitime.Generated.ModuleState', '']
+    echo.update(moduleWrites=sorted(set(written)), cacheDecorators=sorted(set(decos)), concatBuilder=builder, concatDtypeMentions=sorted(set(dtype_mentions)))
+    return 'ModuleState.lean', '\n'.join(lines), echo
+
+
+GENERATORS.append(gen_module_state)
